@@ -7,7 +7,6 @@ import (
 	"go/ast"
 	"go/token"
 	"go/types"
-	"golang.org/x/tools/go/packages"
 	"regexp"
 	"sort"
 	"strings"
@@ -248,69 +247,85 @@ func ruleADPT1(c *Ctx) {
 		got := map[string]bool{}
 		goErrNonNil := false
 		// element type of arrays built in the closure
-		elemOf := func() string {
-			e := ""
-			ast.Inspect(lit.Body, func(m ast.Node) bool {
-				call, ok := m.(*ast.CallExpr)
-				if ok && IsBuiltinCall(p, call, "append") && len(call.Args) == 2 && strings.HasSuffix(w.Src(call.Args[0]), ".Value") {
-					if u, ok := call.Args[1].(*ast.UnaryExpr); ok {
-						if cl, ok := u.X.(*ast.CompositeLit); ok {
-							e, _ = namedName(p.TypesInfo.Types[cl].Type)
+		var classifyBody func(blk *ast.BlockStmt, depth int)
+		classifyBody = func(blk *ast.BlockStmt, depth int) {
+			elemOf := func() string {
+				e := ""
+				ast.Inspect(blk, func(m ast.Node) bool {
+					call, ok := m.(*ast.CallExpr)
+					if ok && IsBuiltinCall(p, call, "append") && len(call.Args) == 2 && strings.HasSuffix(w.Src(call.Args[0]), ".Value") {
+						if u, ok := call.Args[1].(*ast.UnaryExpr); ok {
+							if cl, ok := u.X.(*ast.CompositeLit); ok {
+								e, _ = namedName(p.TypesInfo.Types[cl].Type)
+							}
+						}
+					}
+					return true
+				})
+				return e
+			}
+			ast.Inspect(blk, func(m ast.Node) bool {
+				if fl, ok := m.(*ast.FuncLit); ok && fl.Body != blk {
+					return false
+				}
+				r, ok := m.(*ast.ReturnStmt)
+				if ok && len(r.Results) == 1 && depth == 0 {
+					// `return helper(…)`: the result conversion was moved into a helper
+					if call, ok := ast.Unparen(r.Results[0]).(*ast.CallExpr); ok {
+						if hd := gHelpers[call]; hd != nil && hd.Type.Results != nil && hd.Type.Results.NumFields() == 2 {
+							classifyBody(hd.Body, depth+1)
+							return true
 						}
 					}
 				}
-				return true
-			})
-			return e
-		}
-		ast.Inspect(lit.Body, func(m ast.Node) bool {
-			r, ok := m.(*ast.ReturnStmt)
-			if !ok || len(r.Results) != 2 {
-				return true
-			}
-			if !isNilIdent(r.Results[1]) {
-				if isNilIdent(r.Results[0]) {
-					return true // rejection: (nil, error)
+				if !ok || len(r.Results) != 2 {
+					return true
 				}
-				goErrNonNil = true
-			}
-			if isNilIdent(r.Results[0]) {
-				return true
-			}
-			e := ast.Unparen(r.Results[0])
-			switch x := e.(type) {
-			case *ast.SelectorExpr:
-				switch x.Sel.Name {
-				case "UndefinedValue":
-					got["undefined"] = true
-				case "TrueValue", "FalseValue":
-					got["Bool"] = true
+				if !isNilIdent(r.Results[1]) {
+					if isNilIdent(r.Results[0]) {
+						return true // rejection: (nil, error)
+					}
+					goErrNonNil = true
+				}
+				if isNilIdent(r.Results[0]) {
+					return true
+				}
+				e := ast.Unparen(r.Results[0])
+				switch x := e.(type) {
+				case *ast.SelectorExpr:
+					switch x.Sel.Name {
+					case "UndefinedValue":
+						got["undefined"] = true
+					case "TrueValue", "FalseValue":
+						got["Bool"] = true
+					default:
+						got["?"+w.Src(e)] = true
+					}
+				case *ast.CallExpr:
+					if fn := Callee(p, x); fn != nil && fn.Name() == "wrapError" {
+						got["error"] = true
+					} else {
+						got["?"+w.Src(e)] = true
+					}
+				case *ast.UnaryExpr:
+					if cl, ok := x.X.(*ast.CompositeLit); ok {
+						tn, _ := namedName(p.TypesInfo.Types[cl].Type)
+						got[tn] = true
+					}
+				case *ast.Ident:
+					tn, _ := namedName(p.TypesInfo.Types[x].Type)
+					if tn == "Array" {
+						got["Array<"+elemOf()+">"] = true
+					} else {
+						got["?"+x.Name] = true
+					}
 				default:
 					got["?"+w.Src(e)] = true
 				}
-			case *ast.CallExpr:
-				if fn := Callee(p, x); fn != nil && fn.Name() == "wrapError" {
-					got["error"] = true
-				} else {
-					got["?"+w.Src(e)] = true
-				}
-			case *ast.UnaryExpr:
-				if cl, ok := x.X.(*ast.CompositeLit); ok {
-					tn, _ := namedName(p.TypesInfo.Types[cl].Type)
-					got[tn] = true
-				}
-			case *ast.Ident:
-				tn, _ := namedName(p.TypesInfo.Types[x].Type)
-				if tn == "Array" {
-					got["Array<"+elemOf()+">"] = true
-				} else {
-					got["?"+x.Name] = true
-				}
-			default:
-				got["?"+w.Src(e)] = true
-			}
-			return true
-		})
+				return true
+			})
+		}
+		classifyBody(lit.Body, 0)
 		if !sameSet(got, want) {
 			probs = append(probs, fmt.Sprintf("wrapped function returns %s but the closure yields %s (expected %s)", sig.Results(), setStr(got), setStr(want)))
 		}
@@ -1005,49 +1020,41 @@ func rulePORT1(c *Ctx) {
 		c.anchor("doTextReplace / strings.Replace")
 		return
 	}
-	loopOf := func(fd *ast.FuncDecl) *ast.ForStmt {
-		for _, s := range fd.Body.List {
-			if f, ok := s.(*ast.ForStmt); ok {
-				return f
-			}
-		}
-		return nil
-	}
-	lm, lt := loopOf(mine), loopOf(theirs)
-	if lm == nil || lt == nil || len(lm.Body.List) < 3 || len(lt.Body.List) < 3 {
-		c.anchor("replacement loops")
+	// how the replacement count n and the cursor start are computed, as
+	// nesting-independent tables of guarded assignments (see sliceTable)
+	a, b := sliceTable(p, mine, []string{"n", "start"}), sliceTable(ref, theirs, []string{"n", "start"})
+	if len(a) < 6 || len(b) < 6 {
+		c.anchor(fmt.Sprintf("cursor computation of doTextReplace / strings.Replace (%d / %d guarded assignments)", len(a), len(b)))
 		return
 	}
-	canonLoop := func(pk *packages.Package, fd *ast.FuncDecl, l *ast.ForStmt) (string, string, string) {
-		head := canonStmts(pk, fd, []ast.Stmt{l.Init, &ast.ExprStmt{X: l.Cond}, l.Post}, nil)
-		cursor := canonStmts(pk, fd, l.Body.List[:2], nil)
-		adv := ""
-		for _, s := range l.Body.List {
-			if as, ok := s.(*ast.AssignStmt); ok && len(as.Lhs) == 1 {
-				if id, ok := as.Lhs[0].(*ast.Ident); ok && id.Name == "start" {
-					adv = w.Src(as)
-				}
-			}
-		}
-		return head, cursor, adv
+	inB := map[string]bool{}
+	for _, l := range b {
+		inB[l] = true
 	}
-	h1, c1, a1 := canonLoop(p, mine, lm)
-	h2, c2, a2 := canonLoop(ref, theirs, lt)
-	_ = h1
-	_ = h2
-	c.check(c1 == c2, "replace/cursor", lm, "position of the next match / advance over an empty pattern identical to strings.Replace", "text.replace locates matches differently from strings.Replace: "+firstDiff(c1, c2))
-	c.check(a1 == a2 && a1 != "", "replace/advance", lm, "cursor continues after the replaced text as in strings.Replace ("+a1+")", fmt.Sprintf("text.replace continues at `%s`, strings.Replace at `%s`", a1, a2))
-	// the replacement count: the statement that clamps n
-	cnt := func(pk *packages.Package, fd *ast.FuncDecl) string {
-		for _, s := range fd.Body.List {
-			if is, ok := s.(*ast.IfStmt); ok && is.Init != nil && is.Else != nil {
-				if e, ok := is.Else.(*ast.IfStmt); ok {
-					return canonStmts(pk, fd, []ast.Stmt{is.Init, &ast.ExprStmt{X: is.Cond}, &ast.ExprStmt{X: e.Cond}}, nil) + canonStmts(pk, fd, e.Body.List, nil)
-				}
-			}
-		}
-		return ""
+	inA := map[string]bool{}
+	for _, l := range a {
+		inA[l] = true
 	}
-	n1, n2 := cnt(p, mine), cnt(ref, theirs)
-	c.check(n1 == n2 && n1 != "", "replace/count", mine, "number of replacements computed as in strings.Replace", "text.replace computes the number of replacements differently from strings.Replace: "+firstDiff(n1, n2))
+	classify := func(l string) string {
+		eff := l[strings.Index(l, "|-"):]
+		if strings.Contains(eff, "Count") || strings.Contains(eff, "assign= ($p3") || strings.HasPrefix(eff, "|- return") {
+			return "count"
+		}
+		return "cursor"
+	}
+	probs := map[string][]string{}
+	for _, l := range a {
+		if !inB[l] {
+			probs[classify(l)] = append(probs[classify(l)], "text.replace: "+l)
+		}
+	}
+	for _, l := range b {
+		if !inA[l] {
+			probs[classify(l)] = append(probs[classify(l)], "strings.Replace: "+l)
+		}
+	}
+	c.check(len(probs["count"]) == 0, "replace/count", mine, "number of replacements computed as in strings.Replace", "text.replace computes the number of replacements differently from strings.Replace: "+strings.Join(probs["count"], " || "))
+	c.check(len(probs["cursor"]) == 0, "replace/cursor", mine, "position of the next match, advance over an empty pattern and continuation point as in strings.Replace", "text.replace moves its cursor differently from strings.Replace: "+strings.Join(probs["cursor"], " || "))
+	c.note("PORT.1 guarded assignments compared: %d", len(a))
+	c.ok("replace/table", mine, strings.Join(a, " ;; "))
 }
